@@ -7,7 +7,7 @@ import warnings, itertools
 from fractions import Fraction
 import kv, algs, opcorr as oc
 
-RULE = ('[every 12th case: inv / div of 2-3 blades of one grade in 4-D (5-D in thorough)] '
+RULE = ('[every 12th case: inv / div of 2-3 blades of one grade in 4-D] '
         'for every operator (binary, unary, composite, inverse/division, series): a random element, all permutations of its key '
         'tuple (<=4 keys, else 6 random ones), 3 random zero-padded supersets and both full layouts (canonical, binary), applied to '
         'each operand; results compared blade by blade (exactly for integer/Fraction coefficients, to 1e-9 for sqrt/exp and the outer exponential family, whose generated code contains float constants). '
@@ -85,14 +85,14 @@ def run(R, tier):
     for i in range(n):
         heavy = i % 3 == 0
         d = rng.choice((1, 2, 3)) if heavy else rng.choice((2, 3, 3, 4, 4, 5))
-        hi_inv = heavy and i % 12 == 0          # inverse / division of pure-grade and sparse operands in 4-D (5-D: thorough)
+        hi_inv = heavy and i % 12 == 0          # inverse / division of pure-grade and sparse operands in 4-D
 
         if rng.random() < 0.15 and d >= 2:
             spec = {'sig': [rng.choice((1, -1, 0)) for _ in range(d)], 'basis': algs.random_basis(rng, d)}
         else:
             spec = {'sig': [rng.choice((1, -1, 1, -1, 0)) for _ in range(d)], 'start': rng.choice((None, 0, 1))}
         if hi_inv:
-            d = 4 if tier == 'quick' else rng.choice((4, 4, 5))
+            d = 4      # (5-D full-layout inverses take hours of symbolic work: out of the budget of a check)
             spec = {'sig': [rng.choice((1, -1)) for _ in range(d)], 'start': None}
         key = repr(spec)
         if key not in cache:
